@@ -86,7 +86,13 @@ impl Report {
     pub fn unanalysable(&mut self, role: &str, what: &[String]) {
         for w in what {
             // state of the bound(...) resolution carried across iterations concerns the bounds properties only
-            if w.starts_with("loop-carried bounds flag") && self.prop != "C03" && self.prop != "C04" && self.prop != "C20" { self.notes.push(format!("ignored for this property: {w}")); continue; }
+            // state of the bound(...) resolution carried from one field / variant to the next: the bounds properties report it
+            // in their own terms; for a per-trait property it means later elements lose the bound their code needs
+            if w.starts_with("loop-carried bounds flag") && self.prop != "C03" && self.prop != "C04" && self.prop != "C20" {
+                let site = w.rsplit(" at ").next().unwrap_or("-");
+                self.fail("ES-bounds-scope", role, "loop-carried-flag", &format!("a flag of the bound(...) resolution survives from one field / variant iteration to the next, so a stop on one element silences the following ones, which lose the bound their generated code needs: {w}"), site, json!({}));
+                continue;
+            }
             if w.starts_with("soft:") { self.notes.push(format!("not fatal: {w}")); continue; }
             // a rule decided inside the evaluator, reported under its own name
             if let Some(rest) = w.strip_prefix("rule:") {
